@@ -313,7 +313,9 @@ def only_and_form(chk, g, fn, cons0, sweep, readl, step, var, repo):
         if bb:
             wd_ops += [o for o in bb.items if o.kind == "op" and o.live and o.type in ("Write_disk", "Write")]
     extra = [o for o in wd_ops if not (sweep and any(x is o.node for x in ast.walk(sweep[0])))]
-    chk.decide("C19.ONLY", cons0 + "#write-disk", True if (len(wd_ops) >= 1 and not extra) else (False if extra else None),
+    maybe = g.liveness.maybe_nodes
+    definite = [o for o in extra if id(o.node) not in maybe and o.fname not in g.liveness.maybe_funcs]
+    chk.decide("C19.ONLY", cons0 + "#write-disk", True if (len(wd_ops) >= 1 and not extra) else (False if definite else None),
                f"{len(wd_ops)} live disk-write site(s) reachable; outside the sweep loop: "
                f"{[o.construct for o in extra]}", rel=REL, node=fn)
     k = 0
@@ -354,10 +356,22 @@ def form(chk, repo):
     else:
         w = whiles[0]
         t = w.test
+        # orientation: `rhs >= beta(..)` is `beta(..) <= rhs`; `not (beta(..) > rhs)` likewise
+        MIRROR = {ast.Lt: ast.Gt, ast.LtE: ast.GtE, ast.Gt: ast.Lt, ast.GtE: ast.LtE, ast.Eq: ast.Eq, ast.NotEq: ast.NotEq}
+        NEGATE = {ast.Lt: ast.GtE, ast.LtE: ast.Gt, ast.Gt: ast.LtE, ast.GtE: ast.Lt, ast.Eq: ast.NotEq, ast.NotEq: ast.Eq}
+        shown = ast.unparse(t)
+        if isinstance(t, ast.UnaryOp) and isinstance(t.op, ast.Not) and isinstance(t.operand, ast.Compare) and len(t.operand.ops) == 1 \
+                and type(t.operand.ops[0]) in NEGATE:
+            t = ast.Compare(t.operand.left, [NEGATE[type(t.operand.ops[0])]()], t.operand.comparators)
+        if isinstance(t, ast.Compare) and len(t.ops) == 1 and type(t.ops[0]) in MIRROR and not (
+                isinstance(t.left, ast.Call) and getattr(t.left.func, "id", None) == "beta"):
+            r_ = subst_defs(t.comparators[0], single_defs(fn))
+            if isinstance(r_, ast.Call) and getattr(r_.func, "id", None) == "beta":
+                t = ast.Compare(r_, [MIRROR[type(t.ops[0])]()], [t.left])
         okshape = isinstance(t, ast.Compare) and len(t.ops) == 1 and isinstance(t.left, ast.Call) and \
             getattr(t.left.func, "id", None) == "beta" and len(t.left.args) == 2
         if not okshape:
-            chk.decide("C19.FORM", cons, None, f"loop test not recognised: {ast.unparse(t)}", rel=REL, node=w)
+            chk.decide("C19.FORM", cons, None, f"loop test not recognised: {shown}", rel=REL, node=w)
         else:
             cm = params[0]
             a0 = pkey(pb.poly(t.left.args[0]))
@@ -371,7 +385,8 @@ def form(chk, repo):
             # a definite mismatch needs a right-hand side the rule understands completely (the cost parameters only)
             known = {n.id for n in ast.walk(subst_defs(t.comparators[0], single_defs(fn))) if isinstance(n, ast.Name)} <= set(params)
             chk.decide("C19.FORM", cons + "#threshold", True if ok else (False if known else None),
-                       f"loop: while {ast.unparse(t)}; descriptor: while beta({cm} + 1, t) <= ({wd} + {rd}) / {uf}", rel=REL, node=w)
+                       f"loop: while {shown}" + ("" if shown == ast.unparse(t) else f" (i.e. {ast.unparse(t)})")
+                       + f"; descriptor: while beta({cm} + 1, t) <= ({wd} + {rd}) / {uf}", rel=REL, node=w)
             inc = [s for s in w.body if isinstance(s, ast.AugAssign) and isinstance(s.target, ast.Name) and s.target.id == counter]
             one = len(inc) == 1 and isinstance(inc[0].op, ast.Add) and isinstance(inc[0].value, ast.Constant) and inc[0].value.value == 1
             chk.decide("C19.FORM", cons + "#search", True if one else False, "t is the least integer passing the threshold (t += 1)",
